@@ -99,6 +99,11 @@ package labelmap
 //@ func Data.updateBlockMaxLabel
 //@   prop C12 C11
 //@   requires d != nil && d.MaxLabel != nil && block != nil
+//@   go_summary
+//@   ghost gmax uint64 = arbitrary()
+//@   ghostset at "if label > curMax {": gmax = ite(gmax >= label, gmax, label)
+//@   invariant loop 1: gmax >= old(gmax) && (forall k int :: {block.Labels[k]} 0 <= k && k <= rangeindex ==> gmax >= block.Labels[k])
+//@   ensures gmax >= old(gmax) && (forall k int :: {block.Labels[k]} 0 <= k && k < len(block.Labels) ==> gmax >= block.Labels[k])
 //@   lockset
 //@   interference
 //@   lockbalance
@@ -175,3 +180,15 @@ package labelmap
 //@   ghost gmax uint64 = arbitrary()
 //@   assert at "split, err = dvid.ReadRLEs(r)": (splitlabel != 0 ==> splitSupervoxel == splitlabel) && (remainlabel != 0 ==> remainSupervoxel == remainlabel)
 //@   assert at "split, err = dvid.ReadRLEs(r)": gmax >= splitSupervoxel && gmax >= remainSupervoxel
+
+// storeBlocks (POST .../blocks): for every scale-0 block read from the stream an update of the max label
+// with that block's labels has been started before the block is written (C12: ingested labels are
+// covered by the label counter, with or without indexing).
+//@ func Data.storeBlocks
+//@   prop C12
+//@   requires d != nil && d.MaxLabel != nil
+//@   safety_off
+//@   requires_off
+//@   modifies *
+//@   ghost gmax uint64 = arbitrary()
+//@   assert at "serialization, err := dvid.SerializePrecompressedData(compressed, d.Compression(), d.Checksum())": scale == 0 && block != nil ==> (forall k int :: {block.Labels[k]} 0 <= k && k < len(block.Labels) ==> gmax >= block.Labels[k])
